@@ -11,9 +11,14 @@
 * `noglobal_part`: configurations without any [global] table (the outer `None =>` arms of the getters of
   config.rs), read by the real `read_cnf` (op c14_cnf: nothing is created) and through the real getters
   (op c13_getters).
+* `clash_names` / `clash_part`: one NAME that /etc/passwd knows as a user and /etc/group as a group, with DIFFERENT
+  numbers (found in the databases at run time): NAME as user and as group of one file, of two files, as user in an
+  earlier write and as group in a later one and the reverse, each history in a probe process of its own (root, and a
+  process that is uid(NAME) with gid(NAME) as supplementary group), one configuration and one daemon run.
 """
 import json
 import os
+import random
 import subprocess
 
 import cfggen
@@ -423,3 +428,125 @@ def noglobal_part(ctx, c13, w, defaults, scratch):
 
 def replay_noglobal(ctx, c13, w, defaults, scratch):
     noglobal_part(ctx, c13, w, defaults, scratch)
+
+
+# ------------------------------------------------------------------------------------------------
+# one NAME, a user and a group, two numbers
+
+def clash_names(w, usable, limit=3):
+    """[(NAME, uid, gid)]: the names both databases know, as a user and as a group with another number (Debian: games
+    5/60, man 6/12), whose two numbers can be given to a file here.  Read from the databases, nothing is assumed."""
+    out = []
+    for n in sorted(w["users"]):
+        u, g = w["users"][n], w["groups"].get(n)
+        if g is None or u == g or sl.is_digits(n) or 0 in (u, g) or n in ODD_OWNERS:
+            continue
+        if set(usable([u, g])) == {u, g}:
+            out.append((n, u, g))
+    return out[:limit]
+
+
+def clash_histories(rng, c13, names, start, own=None):
+    """One history per list of cases; the cases of a history share their id (a replay runs the whole history).
+    `own`: the (uid, gid) a file made by the harness belongs to (a process that is not root rewrites only its own)."""
+    hists = []
+
+    def rmode():
+        return rng.choice([0o640, 0o640, 0o660, 0o600, 0o644, 0o440 | 0o200, rng.randint(0, 0o777) | 0o200])
+
+    def case(cid, ft, pku=None, pkg=None, cu=None, cg=None, prev=False, second=None):
+        c = {"id": cid, "ftype": ft, "cert_file_mode": rmode(), "pk_file_mode": rmode(), "cert_file_user": cu,
+             "cert_file_group": cg, "pk_file_user": pku, "pk_file_group": pkg, "empty": False, "prev": None, "second": None}
+        if prev:
+            c["prev"] = {"mode": rmode(), "uid": own[0] if own else rng.choice([0, 1, 4242]),
+                         "gid": own[1] if own else rng.choice([0, 1, 4242]), "len": 30}
+        if second:
+            c["second"] = dict({"cert_file_mode": rmode(), "pk_file_mode": rmode(), "empty": False, "cert_file_user": None,
+                                "cert_file_group": None, "pk_file_user": None, "pk_file_group": None}, **second)
+        return c
+
+    def hist(label, cases):
+        um = rng.choice(c13.UMASKS[:3])
+        h = {"umask": um, "label": label, "steps": [st for c in cases for st in c13.steps_of(dict(c, umask=um))]}
+        hists.append(h)
+
+    def owners(ft, u, g):
+        return {"pku": u, "pkg": g} if ft == "key" else {"cu": u, "cg": g}
+
+    def owners2(ft, u, g):
+        return {("pk" if ft == "key" else "cert") + "_file_user": u, ("pk" if ft == "key" else "cert") + "_file_group": g}
+    for k, (n, _, _) in enumerate(names):
+        cid = start + 100 * k
+        for ft in ("key", "cert"):
+            hist("user=group=NAME:%s:created" % ft, [case(cid, ft, **owners(ft, n, n))])
+            hist("user=group=NAME:%s:rewritten" % ft, [case(cid + 1, ft, prev=True, **owners(ft, n, n))])
+            hist("user-first-group-later:%s" % ft, [case(cid + 2, ft, second=owners2(ft, None, n), **owners(ft, n, None))])
+            hist("group-first-user-later:%s" % ft, [case(cid + 3, ft, second=owners2(ft, n, None), **owners(ft, None, n))])
+        # two files of one certificate: NAME is the user of one and the group of the other
+        hist("cert-user+key-group", [case(cid + 4, "cert", cu=n), case(cid + 4, "key", pkg=n)])
+        hist("key-user+cert-group", [case(cid + 5, "key", pku=n), case(cid + 5, "cert", cg=n)])
+        hist("cert-group+key-user", [case(cid + 6, "cert", cg=n), case(cid + 6, "key", pku=n)])
+        # ... with an account file written in between (no owner is looked up for it)
+        hist("key-user+account+cert-group", [case(cid + 7, "key", pku=n), case(cid + 7, "account", pku=n, pkg=n),
+                                             case(cid + 7, "cert", cg=n)])
+    if len(names) >= 2 and not own:
+        (n, _, _), (m, _, _) = names[:2]
+        hist("two-names-swapped:key", [case(start + 90, "key", pku=n, pkg=m, second=owners2("key", m, n))])
+        hist("two-names-swapped:cert", [case(start + 91, "cert", cu=m, cg=n, second=owners2("cert", n, m))])
+    return hists
+
+
+def clash_part(ctx, c13, w, defaults, scratch, helper):
+    names = w.get("clash") or []
+    if not names:
+        ctx.count("name-clash:no-such-name")
+        ctx.notes.append("no name is a user and a group with different numbers in /etc/passwd and /etc/group here: the "
+                         "histories with one NAME as user and as group were skipped")
+        return
+    if os.geteuid() != 0:
+        ctx.count("name-clash:skipped-the-check-itself-is-not-root")
+        return
+    rng = random.Random("name-clash:%s" % ctx.seed)      # (its own stream: the cases drawn from ctx.rng stay what they were)
+    names = names[:2] if ctx.quick() else names
+    ctx.count("name-clash:names", len(names))
+    os.makedirs(scratch, exist_ok=True)
+    # ---- root: every history in a probe process of its own (whatever the process remembers starts empty)
+    hists = clash_histories(rng, c13, names, 400000)
+    for h in hists:
+        ctx.count("name-clash:root:" + h["label"])
+    res = sl.run_histories(hists, os.path.join(scratch, "root"), workers=8, chunk=1)
+    c13.evaluate(ctx, [(h, root, op, out) for h, (root, op, out) in zip(hists, res)], w, defaults, "name-clash:")
+    # ---- a process that is user NAME (uid U, gid U) with group NAME (gid G) as its supplementary group: it may give
+    # its files to U:G, asked by name
+    for k, (n, U, G) in enumerate(names[:1] if ctx.quick() else names):
+        try:
+            ping = probe_as([{"op": "write_history", "root": ""}], U, U, [G], timeout=120)
+        except (OSError, subprocess.SubprocessError, ValueError) as e:
+            ping = [{"died": True, "stderr": repr(e)}]
+        if not ping or not isinstance(ping[0], dict) or "bad_input" not in ping[0]:
+            ctx.count("name-clash:nonroot:skipped-cannot-start-a-process-as-%d" % U)
+            continue
+        hists = clash_histories(rng, c13, [(n, U, G)], 410000 + 1000 * k, own=(U, U))
+        items = []
+        for i, h in enumerate(hists):
+            h["run_as"] = [U, U, G]
+            for st in h["steps"]:
+                if not chown_allowed(st, w, U, G):
+                    raise RuntimeError("generator: an owner the kernel refuses to a process %d:%d+%d: %r" % (U, U, G, st["fm"]))
+            root, op, out = run_histories_as([h], os.path.join(scratch, "nr%d-%d" % (k, i)), U, U, [G])[0]
+            if isinstance(out, dict) and "steps" in out and (out.get("euid"), out.get("egid"), out.get("fsetid")) != (U, U, False):
+                ctx.broke("harness", "the probe did not run as %d:%d without CAP_FSETID" % (U, U), {"kind": "history", "hist": h})
+                continue
+            ctx.count("name-clash:nonroot:" + h["label"])
+            items.append((h, root, op, out))
+        c13.evaluate(ctx, items, w, defaults, "name-clash:nonroot:")
+    # ---- the start-up path: NAME configured for the four owner options, real writes with the FileManager it builds
+    n = names[0][0]
+    given = {"pk_file_mode": 0o640, "pk_file_user": n, "pk_file_group": n, "cert_file_user": n, "cert_file_group": n}
+    c13.replay_config(ctx, w, defaults, os.path.join(scratch, "cfg"), given)
+    ctx.count("name-clash:config")
+    # ---- the daemon: the key belongs to user NAME and group NAME, the certificate to group NAME
+    n = names[-1][0]
+    c13.judge_daemon(ctx, w, defaults, os.path.join(scratch, "daemon"), helper,
+                     {"pk_file_mode": 0o640, "pk_file_user": n, "pk_file_group": n, "cert_file_group": n}, 0o027)
+    ctx.count("name-clash:daemon")
